@@ -694,8 +694,10 @@ carquet_status_t carquet_writer_close(carquet_writer_t* writer) {
         goto cleanup;
     }
 
-    /* Flush and close */
-    fflush(writer->file);
+    /* Flush: bytes still buffered by stdio have not reached the file yet */
+    if (fflush(writer->file) != 0) {
+        status = CARQUET_ERROR_FILE_WRITE;
+    }
 
 cleanup:
     /* Free resources */
@@ -705,7 +707,9 @@ cleanup:
     }
 
     if (writer->owns_file && writer->file) {
-        fclose(writer->file);
+        if (fclose(writer->file) != 0 && status == CARQUET_OK) {
+            status = CARQUET_ERROR_FILE_WRITE;
+        }
         writer->file = NULL;
     }
 
